@@ -20,6 +20,12 @@ def run(ctx):
     # waypoint: the first transaction was rejected (its abort may still be under way), the second is committed behind it; then
     # every continuation of 12 steps: the second change is merged before it is sent, and a committed change altered its target
     queries += [('bad', 12, ['bad:c02-send-before-merge', 'bad:c02-merge-out-of-order', 'bad:c01-committed-but-target-unaltered', 'bad:c02-applied-ahead-of-committed'], {'pred': 'reach:w-FC', 'depth': 22, 'seed': {'pred': 'reach:w-F-', 'depth': 24}, 'variants': 1 if quick else 3})]
-    proto.run(ctx, 'C02', [('1x2', cfg, queries, ['c02']), ('1x2f', cfgf, qf, [])],
+    configs = [('1x2', cfg, queries, ['c02']), ('1x2f', cfgf, qf, [])]
+    if not quick:
+        # three transactions: the chain contracts ("linked behind the last proposed") fail only from states with a committed
+        # first and an uncommitted second transaction; a counterexample is confirmed by BMC from the initial state
+        cfg3 = dict(nt=1, nx=3, sync=False, rollback=False, faults=False, crash=False)
+        configs.append(('1x3', cfg3, [('reach', 30, ['reach:tx1-committed'])], ['c02'], {'confirm_depth': 34}))
+    proto.run(ctx, 'C02', configs,
               'transition relation of the real v2 transaction/proposal reconcilers; ordering contracts on one step from any state '
               '+ BMC of the ghost order monitors from the initial state', {'bmc_depth': d})
